@@ -176,6 +176,12 @@ EXTRA3 = {
          ' A credit that tops up the destination\'s existing NFT entry instead of storing the arriving one is reported unless it takes the arriving metadata over (equal hashes do not mean equal URIs / attributes).'),
  'C15': ('; who-may-write rule for the counter key and the create-side counter rule (shared with C07-R5 / C07-R1)',
          ' The counter entry is written only by create (stored counter + 1, read from the account) and by the hand-over.'),
+ 'C12': ('; must-pass-through of a memo-dropping store on every path through a writer of the builder's function / elements (when a renderer returns a field of the builder)',
+         ' The builder renders its current function and elements: a rendering kept on the builder is accepted only if every writer drops it.'),
+ 'C14': ('; presence tests of the generated encoders (AST: every condition on the message is the field\'s own presence test)',
+         ' Whether a field is encoded is decided by the field\'s own presence test, never by a helper that looks into it (a present-but-default sub-message is written).'),
+ 'C18': ('; freshness of a flag object held by pointer (every store into the flag field stores an object allocated for this function object)',
+         ' Each epoch-gated function owns its activation flag object.'),
  'C19': ('; lockset extended to state-holding fields touched through methods called on their address (sync/atomic values, sync.Map, the module\'s atomic wrappers): written under the lock somewhere => guarded; an atomic write outside every critical section is reported, lock-free atomic reads are accepted',
          ' A cache published beside the map (atomic snapshot) must be written inside a critical section of the map\'s mutex: a publication after the unlock races with the invalidation made under the write lock.'),
  'C20': ('; loop obligation for the storage-update merge (every turn of the loop over the merged-in updates passes the store of that turn\'s key and update; no delete on an update map below the merge)',
